@@ -414,6 +414,12 @@ def check_b(ck, repo):
                 if nd_ is not None and not _flows_from(rd_, tv_, nd_, Y):
                     bad_.append(r_)
             ck.verdict(not bad_, "C13.b", ptr, rets_[0], f"the probability branch returns {Y}, the array the columns were moved into", f"after moving the columns into {Y} the branch hands back `{src_of(bad_[0].value) if bad_ else ''}`, which does not depend on {Y}: predict_proba / decision_function come back in the inner classifier's column order and disagree with classes_")
+    # "may hold NaN" is asked of every floating dtype, not of float64 alone
+    for m_ in pc.methods.values():
+        for c_ in ast.walk(m_.node):
+            if isinstance(c_, ast.Call) and _t(c_.func).split(".")[-1] == "issubdtype" and len(c_.args) == 2:
+                kind = _t(c_.args[1])
+                ck.verdict(kind in ("numpy.floating", "numpy.inexact", "numpy.number"), "C13.b", m_, c_, f"NaN is looked for in every floating dtype ({kind})", f"the dtype test is issubdtype(.., {kind}): true for float64 only, so float32 / float16 targets holding NaN are not skipped: NaN becomes a key of the permutation at fit and transform raises on it (NaN != NaN), the round trip no longer keeps NaN")
     # fit: distinct values in order of first appearance get 0..n-1, then permuted
     pfit = pc.methods["fit"]
     okr = False
